@@ -97,6 +97,30 @@ func (s *schema) rawCases(r *rand.Rand) []*caseIn {
 		add(mi, "group", "unknown-group", g)
 		add(mi, "group", "stray-end-group", protowire.AppendTag(nil, unk, protowire.EndGroupType))
 		add(mi, "field0", "tag-0", []byte{0x00, 0x00})
+		// field numbers above the legal maximum 2^29-1 (protobuf-go rejects; vtproto computes
+		// int32(wire>>3): 2^31 becomes negative, 2^32+n aliases onto the declared field n)
+		rawTag := func(num uint64, wt uint64) []byte { return protowire.AppendVarint(nil, num<<3|wt) }
+		add(mi, "bigfield", "2^29/varint", protowire.AppendVarint(rawTag(1<<29, 0), 7))
+		add(mi, "bigfield", "2^29/len", protowire.AppendString(rawTag(1<<29, 2), "zz"))
+		add(mi, "bigfield", "2^31/varint", protowire.AppendVarint(rawTag(1<<31, 0), 5))
+		add(mi, "bigfield", "2^29-1/varint(legal)", protowire.AppendVarint(rawTag(1<<29-1, 0), 7))
+		for j := 0; j < fds.Len(); j++ {
+			fd := fds.Get(j)
+			num := uint64(fd.Number())
+			switch k, _ := classify(fd); k {
+			case kScalar:
+				add(mi, "bigfield", string(fd.Name())+"/2^32+declared/varint=5", protowire.AppendVarint(rawTag(1<<32+num, 0), 5))
+			case kString:
+				add(mi, "bigfield", string(fd.Name())+"/2^32+declared/len", protowire.AppendString(rawTag(1<<32+num, 2), "aliased"))
+			case kMapSS:
+				for _, big := range []uint64{1 << 29, 1 << 31, 1<<32 + 1} {
+					e := protowire.AppendString(protowire.AppendTag(nil, 1, protowire.BytesType), "k")
+					e = append(e, protowire.AppendString(rawTag(big, 2), "K2")...)
+					e = protowire.AppendString(protowire.AppendTag(e, 2, protowire.BytesType), "v")
+					add(mi, "bigfield", fmt.Sprintf("%s/in-map-entry/%d", fd.Name(), big), protowire.AppendBytes(protowire.AppendTag(nil, fd.Number(), protowire.BytesType), e))
+				}
+			}
+		}
 		if len(valid) > 1 {
 			for t := 0; t < 3; t++ {
 				cut := 1 + r.Intn(len(valid)-1)
